@@ -484,15 +484,43 @@ def expand_fn(args, sections, unit_file, out, stats):
             body_txt = src.text[src.toks[kbar][2]:endoff].strip()
             if text.strip():
                 inner = body_txt if body_txt.startswith("{") else "{ " + body_txt + " }"
-                hoisted = f"{bars} {text.strip()} {inner}"
+                t_ = text.strip()
+                if t_.startswith("|"):
+                    # R9': the hoisted closure loses the call site's type inference, so the contract may restate the
+                    # parameter list with type ascriptions; the parameter NAMES must be the original ones
+                    close = t_.index("|", 1)
+                    typed, t_ = t_[:close + 1], t_[close + 1:].strip()
+                    names = lambda b: [re.split(r":", x, 1)[0].strip() for x in _split_top(b.strip()[1:-1])]
+                    if names(typed) != names(bars):
+                        raise ExtractError(f"{unit_file}:{uline}: hoisted closure parameters {names(bars)} were restated as {names(typed)}")
+                    bars = typed
+                    stats.rule("R9t")
+                hoisted = f"{bars} {t_} {inner}"
             else:
                 hoisted = closure_text
             ed.insert(stmt_start, f"\n let {vname} = {hoisted};", origin)
             ed.replace(startoff, endoff, vname, ("rule", "R9", src.line_of(startoff)))
             finfo["sections"][-1]["closure_text"] = norm_ws(closure_text)
             stats.rule("R9")
-        elif kind in ("before", "after"):
+        elif kind in ("before", "after", "afterstmt"):
             s_, e_ = find_anchor(src, fn.body_open, fn.body_close, arg, f"fn {name}")
+            if kind == "afterstmt":
+                # the anchor is the START of a statement; insert after that statement's terminating `;`
+                ks = [k for k in src.sig if src.toks[k][1] >= s_ and src.toks[k][1] < fn.body_close]
+                depth, e_ = 0, None
+                for k in ks:
+                    t = src.tt(k)
+                    if t in ("(", "[", "{"):
+                        depth += 1
+                    elif t in (")", "]", "}"):
+                        depth -= 1
+                        if depth < 0:
+                            break
+                    elif t == ";" and depth == 0:
+                        e_ = src.toks[k][2]
+                        break
+                if e_ is None:
+                    raise ExtractError(f"{src.path}: fn {name}: statement starting at anchor `{arg}` has no terminator (lost anchor)")
             ed.insert(s_ if kind == "before" else e_, "\n" + text + "\n", origin)
         elif kind in ("replace", "replace?"):
             m = re.match(r'^(.*)\s+sha=([0-9a-f]+)$', arg, re.S)
@@ -521,6 +549,24 @@ def expand_fn(args, sections, unit_file, out, stats):
     ed.emit(out)
     out.add("\n", "unit", unit_file, 0)
     stats.functions.append(finfo)
+
+
+def _split_top(s):
+    """split at top-level commas (parentheses/brackets/angle brackets respected)"""
+    out, depth, cur = [], 0, ""
+    for ch in s:
+        if ch in "([<":
+            depth += 1
+        elif ch in ")]>":
+            depth -= 1
+        if ch == "," and depth == 0:
+            out.append(cur)
+            cur = ""
+        else:
+            cur += ch
+    if cur.strip():
+        out.append(cur)
+    return out
 
 
 def strip_attrs_and_docs(src, a, b):
@@ -619,7 +665,7 @@ def expand_unit(unit_path, stats=None):
                     body = s2[3:]
                     kind = body.split(None, 1)[0]
                     arg = body[len(kind):].strip()
-                    if kind in ("before", "after", "replace", "replace?"):
+                    if kind in ("before", "after", "afterstmt", "replace", "replace?"):
                         m = re.match(r'^"((?:[^"\\]|\\.)*)"(.*)$', arg, re.S)
                         if not m:
                             raise ExtractError(f"{unit_file}:{i+1}: anchor must be quoted")
